@@ -2,13 +2,15 @@ SPECIFICATION MCSpec
 CONSTANTS
   Proc = {"s1", "s2"}
   CloneSeq <- Clones0
-  Defect_CheckThenClone = TRUE
-  Defect_UnlockedJoin = TRUE
+  Defect_CheckThenClone = FALSE
+  Defect_UnlockedJoin = FALSE
   Defect_SplitDrop = TRUE
 INVARIANTS
   TypeOK
   C29_ReturnedHandleIsBacked
   C29_LeftAtZero
+  X_HandleUsesCurrentSession
+  X_CounterCountsHandles
 PROPERTIES
   C29_LeftOnlyAtZero
 VIEW NoHistView
